@@ -505,8 +505,27 @@ def patho_near_equal_exponents(rng):
     return b
 
 
+def patho_uncontracted_block(rng):
+    """a shell that is a block of uncontracted primitives written as a square coefficient matrix: one non-zero coefficient per
+    column, coefficients that differ from column to column, primitives not in decreasing order, and (second form) the columns
+    listed in another order than the primitives (the 2x2 form occurs in the jorge-6zp source)"""
+    b = gen_basis(rng, nel=1, allow_fused=False, lmax=1)
+    el = next(iter(b['elements'].values()))
+    l = rng.choice([0, 1])
+    z = '0.0'
+    if rng.random() < 0.5:
+        cs = [['0.7', z, z], [z, '0.9', z], [z, z, '1.1']]
+    else:
+        cs = [[z, z, '0.7'], ['0.9', z, z], [z, '1.1', z]]
+    el['electron_shells'] = [{'function_type': 'gto', 'region': '', 'angular_momentum': [l], 'exponents': ['0.5', '12.0', '3.0'], 'coefficients': cs},
+                             {'function_type': 'gto', 'region': '', 'angular_momentum': [l], 'exponents': ['55.5', '0.11'], 'coefficients': [['0.25', '0.85']]}]
+    b['function_types'] = whole_types(b['elements'])
+    return b
+
+
 NOT_VALIDATOR_VALID = [patho_fused_zero_member]
 PATHOLOGICAL = [patho_dup_function, patho_contraction_on_free, patho_mixed_fused, patho_spd, patho_spd_free_low, patho_spd_free_high, patho_pd_fused,
                 patho_equal_coefficients, patho_plain_then_fused_shared, patho_cancelling, patho_unsorted_fused, patho_respelled_shared,
                 patho_p_only_primitive_in_sp, patho_tiny_edge_coefficient,
-                patho_block_general_shared_column, patho_near_equal_exponents]
+                patho_block_general_shared_column, patho_near_equal_exponents,
+                patho_uncontracted_block]
